@@ -139,7 +139,14 @@ fn run_config(e: &Expression, n_threads: usize, rpt: usize, case: &str, seed: u6
         None => {
             if free {
                 for k in 0..8 {
-                    if let Some(b) = free_run(&p.cfg, seed + k) {
+                    let fr = match free_run(&p.cfg, seed + k) {
+                        Ok(v) => v,
+                        Err(w) => {
+                            rep.inconclusive.push(format!("{} ({})", w, case));
+                            return;
+                        }
+                    };
+                    if let Some(b) = fr {
                         let (sig, d) = match b {
                             Bad::Torn { detail, .. } => ("torn", detail),
                             Bad::Deadlock { detail, .. } => ("deadlock", detail),
